@@ -119,7 +119,24 @@ def run(eng, R):
     for conds, e, env in rs:
         key = " and ".join(("" if pol else "not ") + ast.unparse(t) for t, pol in conds)
         got[key] = Normalizer(env).norm(e).canon()
-    ok = got.get("self._param_model.density") == "self._data_container.n_entries*self._param_model.data" and got.get("not self._param_model.density") == "self._param_model.data"
+    ok = False
+    for flag in ("self._param_model.density", "self._density"):  # the reader keeps the fit's flag equal to the model's (C09 E14)
+        ok = ok or (got.get(flag) == "self._data_container.n_entries*self._param_model.data" and got.get("not " + flag) == "self._param_model.data")
+    if not ok and len(got) == 1:
+        # the scale may live in a helper: `self._param_model.data * self.<helper>()` with helper = n_entries for a density, 1 otherwise
+        (form,) = got.values()
+        for m_ in p.find_class("HistFit").all_methods().values():
+            if not hasattr(m_, "node") or ("(self).%s()" % m_.name) not in form:
+                continue
+            if form not in ("(self).%s()*self._param_model.data" % m_.name,):
+                continue
+            hr = {}
+            for conds, e, env in return_exprs(m_.node):
+                key = " and ".join(("" if pol else "not ") + ast.unparse(t) for t, pol in conds)
+                hr[key] = Normalizer(env).norm(e).canon()
+            for flag in ("self._param_model.density", "self._density"):
+                if hr.get(flag) == "self._data_container.n_entries" and hr.get("not " + flag) == "1":
+                    ok = True
     R.ob("S-fit", "HistFit.model", ok, (hm.file, hm.lineno), "HistFit.model must be density integral x number of entries for a density, the bare bin contents otherwise (found %s)" % got)
     src = common.src_of(hm.node)
     R.ob("S-fit", "HistFit.model:push", "self._param_model.parameters = self.parameter_values" in src, (hm.file, hm.lineno), "HistFit.model must push the current parameter values into the model before reading it")
